@@ -1,6 +1,7 @@
 SPECIFICATION Spec
-CONSTANTS MaxT = 3 MaxS = 3 RewardVals = {0, 1} Policies = {"munkres", "greedy", "random", "allvisible"}
+CONSTANTS MaxT = 3 MaxS = 3 RewardVals = {0, 1} Policies = {"munkres", "greedy", "random", "allvisible"} VisBonus = 0
 INVARIANT NonEmpty
 INVARIANT DecisionFeasible
+INVARIANT ScaleInvariant
 INVARIANT MunkresOptimal
 INVARIANT GreedyOptimal
